@@ -108,8 +108,8 @@ impl Engine for C19 {
     }
     fn runs(&self, tier: Tier) -> u64 {
         match tier {
-            Tier::Quick => 3_000,
-            Tier::Thorough => 30_000,
+            Tier::Quick => 12_000,
+            Tier::Thorough => 150_000,
         }
     }
     fn watchdog(&self, _tier: Tier) -> std::time::Duration {
